@@ -126,7 +126,7 @@ def observed(events):
         elif k == "patch":
             out.append(("patch", max(e["start"], 0), e["n"], e["status"], e["acc"]))
         elif k == "put":
-            out.append(("put", 0, e["n"], e["status"], 0))
+            out.append(("put", 0, e["n"], e["status"], e.get("acc", 0)))
         elif k == "get":
             out.append(("get", 0, 0, e["status"], 0))
         elif k == "delete":
